@@ -775,6 +775,9 @@ fn twin_router(c: &TwinCfg, blocking: bool, nmw: usize, order: u8, counts: &[Arc
 static E2E_DONE: AtomicU64 = AtomicU64::new(0);
 static NO_RESPONSE_SEEN: AtomicU64 = AtomicU64::new(0);
 static GET_E2E_DONE: AtomicU64 = AtomicU64::new(0);
+static THOROUGH: std::sync::atomic::AtomicBool = std::sync::atomic::AtomicBool::new(false);
+/// socket legs with long stalls run concurrently; their verdicts are collected at the end of the run
+static PENDING: Mutex<Vec<std::thread::JoinHandle<Vec<(String, String, Vec<String>)>>>> = Mutex::new(Vec::new());
 static E2E_CAP: AtomicU64 = AtomicU64::new(1500);
 
 fn async_rt() -> &'static tokio::runtime::Runtime {
@@ -827,7 +830,9 @@ fn tcp_roundtrip(router: Router, frames: &[Vec<u8>], srv: u8, io: u8, salt: u64)
     let addr = start_server(router, srv, io & 8 != 0)?;
     let mut stream = std::net::TcpStream::connect(addr).map_err(|_| "connect")?;
     // watchdog: 12 s normally; once responses have gone missing in this run, 3 s (the tree is broken anyway)
-    let wd = if NO_RESPONSE_SEEN.load(Ordering::SeqCst) >= 2 { 3 } else { 12 };
+    // (s) bit 6: ONE stall longer than any plausible internal timer: 300 / 600 / 1100 ms (2.5 / 5.5 / 11 s in the thorough tier)
+    let long_ms: u64 = if io & 64 != 0 { if THOROUGH.load(Ordering::SeqCst) { [2500, 5500, 11000][(salt % 3) as usize] } else { [300, 600, 1100][(salt % 3) as usize] } } else { 0 };
+    let wd = (if NO_RESPONSE_SEEN.load(Ordering::SeqCst) >= 2 { 3 } else { 12 }) + long_ms / 1000;
     stream.set_read_timeout(Some(std::time::Duration::from_secs(wd))).map_err(|_| "timeout")?;
     stream.set_nodelay(true).ok();
     let all: Vec<u8> = frames.concat();
@@ -847,7 +852,12 @@ fn tcp_roundtrip(router: Router, frames: &[Vec<u8>], srv: u8, io: u8, salt: u64)
     };
     cuts.sort_unstable();
     cuts.dedup();
-    let stall = if io & 8 != 0 { 150 } else if io & 4 != 0 { 25 } else { 0 };
+    let stall = if long_ms > 0 { long_ms } else if io & 8 != 0 { 150 } else if io & 4 != 0 { 25 } else { 0 };
+    let max_stalls = if long_ms > 0 { 1 } else { 4 };
+    if long_ms > 0 && cuts.is_empty() {
+        cuts.push(1 + (salt % 60) as usize % total.max(2).saturating_sub(1).max(1)); // somewhere in the first frame's first 60 bytes
+        cuts.retain(|x| *x > 0 && *x < total);
+    }
     let mut ws = stream.try_clone().map_err(|_| "clone")?;
     let writer = std::thread::spawn(move || {
         let mut at = 0usize;
@@ -858,7 +868,7 @@ fn tcp_roundtrip(router: Router, frames: &[Vec<u8>], srv: u8, io: u8, salt: u64)
             }
             at = *c;
             // stall a bounded number of times (a 1-byte stream must not take minutes)
-            if stall > 0 && stalled < 4 {
+            if stall > 0 && stalled < max_stalls {
                 std::thread::sleep(std::time::Duration::from_millis(stall));
                 stalled += 1;
             }
@@ -885,6 +895,44 @@ fn tcp_roundtrip(router: Router, frames: &[Vec<u8>], srv: u8, io: u8, salt: u64)
     })();
     drop(stream);
     res.map(|_| out)
+}
+
+/// The same frames as binary WebSocket messages to a real `WebSocketServer`, one at a time.
+fn ws_roundtrip(router: Router, frames: &[Vec<u8>]) -> Result<Vec<Message>, &'static str> {
+    use futures_util::{SinkExt, StreamExt};
+    use tokio_tungstenite::tungstenite::Message as WsMsg;
+    let rt = async_rt();
+    let frames = frames.to_vec();
+    rt.block_on(async move {
+        let work = async {
+            let listener = repe::WebSocketServer::listen("127.0.0.1:0").await.map_err(|_| "bind")?;
+            let addr = listener.local_addr().map_err(|_| "addr")?;
+            tokio::spawn(async move {
+                let _ = repe::WebSocketServer::new(router).serve_listener(listener, "/ws").await;
+            });
+            let (mut ws, _) = tokio_tungstenite::connect_async(format!("ws://{}/ws", addr)).await.map_err(|_| "connect")?;
+            let mut out = Vec::new();
+            for f in frames {
+                ws.send(WsMsg::Binary(f.into())).await.map_err(|_| "write")?;
+                loop {
+                    match ws.next().await {
+                        Some(Ok(WsMsg::Binary(b))) => {
+                            out.push(Message::from_slice(&b).map_err(|_| "parse")?);
+                            break;
+                        }
+                        Some(Ok(_)) => continue,
+                        _ => return Err("no_response"),
+                    }
+                }
+            }
+            let _ = ws.close(None).await;
+            Ok(out)
+        };
+        match tokio::time::timeout(std::time::Duration::from_secs(12), work).await {
+            Ok(r) => r,
+            Err(_) => Err("no_response"),
+        }
+    })
 }
 
 /// Final response as the dispatch layer would send it (echo rule + error mapping), canonical text.
@@ -1139,6 +1187,28 @@ fn exec_twin(out: &mut Out, line: &str, w: &[&str]) -> (String, bool) {
                 let mut frames: Vec<Vec<u8>> = decoy_reqs.iter().map(|d| d.to_vec()).collect();
                 frames.push(req.to_vec());
                 let which = if srv & 8 == 0 { "tcp_server" } else { "async_server" };
+                if io & 64 != 0 && io & 8 == 0 {
+                    // run concurrently; judged when collected
+                    let (router, frames2, r0c, kindc, whichc, opsc) = (wrapped.clone(), frames.clone(), r0.clone(), kind.to_string(), which.to_string(), ops.clone());
+                    let (salt, q2) = (rid ^ idx.parse::<u64>().unwrap_or(0), query.clone());
+                    let h = std::thread::spawn(move || {
+                        let mut fails = vec![];
+                        match tcp_roundtrip(router, &frames2, srv, io, salt) {
+                            Ok(mut all) => {
+                                let got = norm(rid, &q2, Ok(Ok(all.pop().unwrap())));
+                                if got != r0c {
+                                    fails.push((format!("router.twin.{}.{}", kindc, whichc), format!("after a long stall inside the request (io {}) the server answered\n  {}\nbut plain.handle answered\n  {}", io, got, r0c), opsc));
+                                }
+                            }
+                            Err("no_response") => fails.push((format!("router.twin.{}.{}.no_response", kindc, whichc), format!("a request delivered in two pieces with a long stall between them (io {}) was never answered", io), opsc)),
+                            Err(_) => {}
+                        }
+                        fails
+                    });
+                    PENDING.lock().unwrap().push(h);
+                    collect_pending(out, 32);
+                    out.count("twin.e2e.long_stall.started");
+                } else {
                 let t0 = std::time::Instant::now();
                 let rr = tcp_roundtrip(wrapped.clone(), &frames, srv, io, rid ^ idx.parse::<u64>().unwrap_or(0));
                 out.add(&format!("twin.e2e.ms.io{}", io & 63), t0.elapsed().as_millis() as u64);
@@ -1170,6 +1240,49 @@ fn exec_twin(out: &mut Out, line: &str, w: &[&str]) -> (String, bool) {
                         }
                     }
                 }
+                }
+                // (t) the feature-gated WebSocket twin: inline (borrowed) for plain registrars, off-reader (owned
+                // `dispatch` + `stamp_response_query`) for the `_blocking` ones. The peer-carrying context makes the
+                // ctx kinds answer differently by design, so only the context-free kinds are compared.
+                if srv & 1 != 0 && !matches!(kind, "jsonctx" | "typedctx") && decoys <= 3 && io & 64 == 0 {
+                    match ws_roundtrip(wrapped.clone(), &frames) {
+                        Ok(mut all) => {
+                            out.count("twin.e2e.websocket.ok");
+                            let got = norm(rid, &query, Ok(Ok(all.pop().unwrap())));
+                            if got != r0 {
+                                out.oracle_fail(&format!("router.twin.{}.websocket_server", kind), &format!("the WebSocket server ({} path) answered\n  {}\nbut plain.handle answered\n  {}", if blocking { "off-reader" } else { "inline" }, got, r0), &ops);
+                            }
+                        }
+                        Err(e) => out.count(&format!("twin.e2e.websocket.io_error.{}", e)),
+                    }
+                }
+            }
+        }
+    }
+    // (u) our clause on somebody else's path: an envelope that `route()` refuses (version, query format, not
+    // UTF-8, unknown path – the codes are C03's) must still be refused THE SAME WAY by the blocking and the
+    // async server, with the request's id and query
+    if (io & 128 != 0 || idx.parse::<u64>().map(|i| i % 8 == 1).unwrap_or(false)) && notify != 1 && !panics {
+        let refused = version != 1 || qfmt != 1 || std::str::from_utf8(&query).map(|p| wrapped.get(p).is_none()).unwrap_or(true);
+        if refused && E2E_DONE.load(Ordering::SeqCst) < E2E_CAP.load(Ordering::SeqCst) {
+            E2E_DONE.fetch_add(1, Ordering::SeqCst);
+            let f = vec![req.to_vec()];
+            let a = tcp_roundtrip(wrapped.clone(), &f, srv & !8, 0, 0);
+            let b = tcp_roundtrip(wrapped.clone(), &f, srv | 8, 0, 0);
+            match (a, b) {
+                (Ok(mut a), Ok(mut b)) => {
+                    out.count("twin.e2e.refused.ok");
+                    let (a, b) = (a.pop().unwrap(), b.pop().unwrap());
+                    let (na, nb) = (norm(rid, &[], Ok(Ok(a.clone()))), norm(rid, &[], Ok(Ok(b))));
+                    if na != nb {
+                        out.oracle_fail(&format!("router.twin.{}.servers_differ", kind), &format!("a refused request was answered\n  {}\nby the blocking server and\n  {}\nby the async server", na, nb), &ops);
+                    }
+                    if a.header.id != rid || a.query != query || a.header.ec == 0 {
+                        out.oracle_fail(&format!("router.twin.{}.refusal_shape", kind), &format!("a request no route accepts was answered id={} ec={} q={} (request id={} q={})", a.header.id, a.header.ec, hex(&a.query), rid, hex(&query)), &ops);
+                    }
+                }
+                (Err("no_response"), _) | (_, Err("no_response")) => out.oracle_fail(&format!("router.twin.{}.refused.no_response", kind), "a refused non-notify request got no answer from one of the servers", &ops),
+                _ => out.count("twin.e2e.refused.io_error"),
             }
         }
     }
@@ -2167,7 +2280,7 @@ impl Gen {
             let mode = *self.rng.pick(&[0u64, 0, 1, 2, 2, 3]);
             let stall = match self.rng.below(12) { 0 => 4, 1 => 8, _ => 0 };
             let rd = if self.rng.chance(1, 6) { 16 } else { 0 } | if self.rng.chance(1, 6) { 32 } else { 0 };
-            mode | stall | rd | if self.rng.chance(1, 10) { 128 } else { 0 }
+            mode | stall | rd | if self.rng.chance(1, 10) { 128 } else { 0 } | if self.rng.chance(1, 14) { 64 | 128 } else { 0 }
         });
         // (h) frames right below / at / above the 8 KiB BufReader/BufWriter capacity (and twice that)
         if self.rng.chance(1, 12) && matches!(bfmt, 2 | 3) && matches!(kind, "json" | "jsonctx" | "struct" | "registry") {
@@ -2380,14 +2493,13 @@ const DRIVEN: &[(&str, &[&str])] = &[
     ]),
     ("src/async_server.rs", &["new", "read_timeout", "write_timeout", "listen", "serve"]),
     ("src/json_pointer.rs", &["parse", "evaluate"]),
-    ("src/server_request.rs", &["route", "route_request_view", "dispatch_view"]), // pub(crate): through the TCP servers
+    ("src/server_request.rs", &["route", "route_request_view", "dispatch_view", "dispatch"]), // pub(crate): through the TCP servers; `dispatch` through the WebSocket off-reader path
     ("repe-derive/src/lib.rs", &["derive_repe_struct"]),
     ("src/structs.rs", &["code", "path_from_segments"]),
 ];
 /// (file, name, why not)
 const NOT_DRIVEN: &[(&str, &str, &str)] = &[
     ("src/server.rs", "stop", "no handle is left once `serve(self)` owns the server"),
-    ("src/server_request.rs", "dispatch", "owned twin used by the WebSocket off-reader path only: driven by the C03/C16 families; in-process `handle_with_ctx` + the same error mapping is what this family compares"),
     ("src/structs.rs", "join_path", "builds error-message text only"),
     ("src/structs.rs", "prepend_path", "builds error-message text only"),
 ];
@@ -2429,6 +2541,22 @@ fn entry_point_audit(out: &mut Out) {
     out.extra.insert("entry_points_seen".into(), json!(total));
     out.extra.insert("not_driven".into(), json!(missing));
     out.extra.insert("not_driven_because".into(), json!(NOT_DRIVEN.iter().map(|(f, n, w)| format!("{}::{} – {}", f, n, w)).collect::<Vec<_>>()));
+}
+
+fn collect_pending(out: &mut Out, keep: usize) {
+    loop {
+        let h = {
+            let mut p = PENDING.lock().unwrap();
+            if p.len() <= keep { break; }
+            p.remove(0)
+        };
+        if let Ok(fails) = h.join() {
+            out.count("twin.e2e.long_stall.done");
+            for (sig, detail, ops) in fails {
+                out.oracle_fail(&sig, &detail, &ops);
+            }
+        }
+    }
 }
 
 /// (o) every op runs under a watchdog: an op that does not finish is a call into the code under test that
@@ -2475,6 +2603,7 @@ fn main() {
     };
     if args.thorough() {
         E2E_CAP.store(6000, Ordering::SeqCst);
+        THOROUGH.store(true, Ordering::SeqCst);
     }
     let mut sc = Scen::new();
     let mut ds = DState::new();
@@ -2485,6 +2614,8 @@ fn main() {
         *watch.lock().unwrap() = (std::time::Instant::now(), line.clone());
         exec_line(&mut out, &mut sc, &mut ds, line);
     }
+    *watch.lock().unwrap() = (std::time::Instant::now(), "collecting the concurrent stalled socket legs".to_string());
+    collect_pending(&mut out, 0);
     *watch.lock().unwrap() = (std::time::Instant::now(), String::new());
     out.extra.insert("ops".into(), json!(lines.len()));
     out.finish();
